@@ -882,6 +882,38 @@ def check(run):
             if len([v for v in run.violations if v.replay and v.replay.get("kind") == "find"]) > 5:
                 break
 
+    # ---- fixed pairs, both directions: the answer is known, and the two directions must agree
+    FIXED = [("[a:b = 1 OR a:b = 2]", "[a:b = 1 AND a:b = 2]", False), ("[a:b = 1 AND a:b = 2]", "[a:b = 2 AND a:b = 1]", True),
+             ("[a:b = 9007199254740992]", "[a:b = 9007199254740993]", False),
+             ("[a:b IN (9007199254740992, 9007199254740993)]", "[a:b IN (9007199254740992)]", False),
+             ("[a:b = 9007199254740992 OR a:b = 9007199254740993]", "[a:b = 9007199254740992]", False),
+             ("[a:b = 1" + "0" * 310 + "]", "[a:b = 1" + "0" * 309 + "1]", False),
+             ("[a:b = 1" + "0" * 310 + "]", "[a:b = 1" + "0" * 310 + "]", True),
+             ("(([a:b = 1] OR [a:b = 1]) AND [a:b = 2]) OR ([a:b = 1] AND [a:b = 2])", "[a:b = 1] AND [a:b = 2]", True),
+             ("[((a:b = 1 OR a:b = 1) AND a:c = 2) OR (a:b = 1 AND a:c = 2)]", "[a:b = 1 AND a:c = 2]", True)]
+    fres2 = common.run_impl("c09_impl", [{"op": "equiv", "p": x, "q": y} for a, b, _ in FIXED for x, y in ((a, b), (b, a))])
+    stats["fixed_pairs"] = len(FIXED)
+    for n, (a, b, want) in enumerate(FIXED):
+        r1, r2 = fres2[2 * n], fres2[2 * n + 1]
+        run.count({"op": "equiv", "p": a, "q": b}, nontrivial=True)
+        for (x, y), r in (((a, b), r1), ((b, a), r2)):
+            if is_exc(r):
+                run.violations.append(Violation("equivalent_patterns raises %s (%s) on %r / %r" % (r["exc"], r.get("where"), x, y),
+                                                {"kind": "equiv-crash", "p": x, "q": y, "exc": r}))
+        if not is_exc(r1) and not is_exc(r2):
+            if r1["r"] != r2["r"]:
+                run.violations.append(Violation("equivalent_patterns is not symmetric on %r / %r" % (a, b),
+                                                {"kind": "symmetric", "p": a, "q": b}))
+            elif r1["r"] is True and not want:
+                run.violations.append(Violation(
+                    "equivalent_patterns(%r, %r) is True although the patterns match different observations" % (a, b),
+                    {"kind": "unsound-witness", "p": a, "q": b}))
+            elif r1["r"] is False and want:
+                run.violations.append(Violation(
+                    "equivalent_patterns(%r, %r) is False although the second is the first after documented rewrites "
+                    "(idempotence, then the collapse of the one-operand OR, then idempotence again)" % (a, b),
+                    {"kind": "recognise", "p": a, "q": b, "rewrites": ["two-pass"]}))
+
     # ---- oracle: every public way of naming the STIX version (stix_version "2.0" / "2.1", as keyword, positionally, not
     #      at all) with version-specific vocabulary (a 2.1-only keyword as a 2.0 property name): on a pattern the validator
     #      of that version accepts the test must not raise, must be reflexive, must not depend on how the version is handed
